@@ -11,6 +11,8 @@ import vlib
 from vlib import Report, ToolError, cached, cargo_build_or_die, log, mkscratch, rmtree
 
 ALL_MODES = ["lane", "lr1", "lalr"]
+DEPS = ["spec/Grammar.tla", "spec/CanonLR.tla", "spec/Sim.tla", "spec/MCSim.cfg", "tools/eng_sim.py", "tools/c_sim.py",
+        "tools/gen.py", "tools/lp.py", "tools/vlib.py", "harness/crates/lpdrv", "harness/Cargo.toml", "harness/.cargo"]
 
 
 def population(tier, seed):
@@ -111,7 +113,7 @@ def analyse(pop, modes):
 def shared(tier, seed):
     """the sim run is shared by C01 and C03 (cached per repository state)"""
     cargo_build_or_die(["lpdrv"])
-    key = "sim-%s-%s-%s-%d" % (vlib.repo_fingerprint(), vlib.verif_fingerprint(), tier, seed)
+    key = "sim-%s-%s-%s-%d" % (vlib.repo_fingerprint(), vlib.verif_fingerprint(DEPS), tier, seed)
 
     def build(d):
         pop = population(tier, seed)
